@@ -559,3 +559,52 @@ func fitsEstablished(f *core.Fn, call *ast.CallExpr, recv, arg ast.Expr, fits *c
 	}
 	return false
 }
+
+// readersStoreWhatTheyRead: a TLV/PDU reader that rewrites a field it has just decoded from that field's own value
+// (trimming, normalising, clamping) returns content different from what the constructor/serializer put on the wire,
+// while length fields keep the wire value: serialize→decode no longer yields the same content.  Rule: in the reader
+// functions of the IS-IS packet package no field of the value being decoded is assigned from an expression that reads
+// the same field.
+func readersStoreWhatTheyRead(c *core.Ctx) {
+	const rule = "reader-stores-what-it-read"
+	p := c.P
+	const ipkt = "protocols/isis/packet"
+	nFns, nBad := 0, 0
+	for _, f := range p.FuncsIn(ipkt) {
+		if f.Decl.Body == nil || isTestFn(p, f) {
+			continue
+		}
+		name := f.Decl.Name.Name
+		if !(strings.HasPrefix(name, "read") || strings.HasPrefix(name, "Decode") || strings.HasPrefix(name, "decode")) {
+			continue
+		}
+		nFns++
+		c.Analysed(f)
+		ast.Inspect(f.Decl.Body, func(n ast.Node) bool {
+			as, ok := n.(*ast.AssignStmt)
+			if !ok || len(as.Lhs) != len(as.Rhs) {
+				return true
+			}
+			for i, l := range as.Lhs {
+				fv := core.FieldOf(f.Pkg, l)
+				if fv == nil || !core.MentionsField(f.Pkg, as.Rhs[i], fv) {
+					continue
+				}
+				// x.F = append(x.F, …) and x.F = x.F[:n] while reading a list are the accumulation itself
+				if call, isCall := core.Unparen(as.Rhs[i]).(*ast.CallExpr); isCall {
+					if id, isId := call.Fun.(*ast.Ident); isId && id.Name == "append" {
+						continue
+					}
+				}
+				nBad++
+				c.Check(false, rule, fmt.Sprintf("%s rewrites %s from its own value", f.Name(), fv.Name()), as.Pos(),
+					fmt.Sprintf("the reader assigns %s from an expression over %s itself after decoding it: the decoded content differs from the octets the serializer wrote (and from the length fields kept from the wire), so a serialized PDU does not decode back to the same content", fv.Name(), fv.Name()))
+			}
+			return true
+		})
+	}
+	c.Check(nFns >= 15, rule, "reader functions examined", 0, fmt.Sprintf("examined %d reader functions of the IS-IS packet package, floor 15", nFns))
+	if nBad == 0 {
+		c.Check(true, rule, "no reader rewrites a decoded field from itself", 0, "")
+	}
+}
